@@ -74,6 +74,19 @@ _l("C16", "4 C16", "PegStage (LedgerBlock.tla): requested amounts, floor shares 
    "rates, per-height sets before V4 and one pooled set with a bank row after; legacy-era chains with totals below / above the bank, ties and requests spread "
    "over unrated blocks are run on the real node; TLC compares PEG / source deltas, recorded yield + refund and the bank row.")
 
+_l("C17", "4 C17", "MC_Ledger proves ExecutedIffRel / PendingIffHeld; on real runs TLC checks after every block that statuses tell the truth (executed iff applied with "
+   "the credited amounts, negative iff rejected without effect, pending only while it can still be considered) and that replaying the block's history rows plus "
+   "the scheduled adjustments reproduces all balances; the real API handlers are queried over HTTP through all pages by entry hash, address and height: every "
+   "recorded action exactly once, counts / offsets consistent, status and balances equal to the ledger.",
+   technique="TLA+ spec (LedgerBlock + history replay + query model in Trace_Ledger) + TLC trace validation incl. real API answers")
+CHECKS["C20"] = dict(cat="model_checking", ref="4 C20", engine="tlc-case-enumeration",
+    text="Codec.tla transcribes the decimal-amount parser and the canonical FAT-2 batch grammar as pure operators; TLC enumerates the case menus (all strings over "
+         "{0,9,.} up to a bound, boundary values around 2^63/2^64 and 8 fraction digits, key sets with missing / duplicate / unknown / re-cased keys, ticker, "
+         "amount and address classes), exports every case, the real parsers are run on the rendered bytes and TLC re-decides every observation (Trace_Codec).",
+    note="Pure-function enumeration: arbitrary byte strings outside the grammar-shaped menus are not generated (that would be fuzzing). Trusted: TLC, the rendering of "
+         "abstract cases to bytes in harness/cmd/c20.",
+    technique="TLA+ transcription of the parsers (Codec.tla) + TLC case enumeration + replay into the real parsers + TLC validation of the observations")
+
 PENDING = {}
 
 def main():
